@@ -6,7 +6,6 @@ package main
 
 import (
 	"fmt"
-	"go/types"
 	"strings"
 
 	"golang.org/x/tools/go/ssa"
@@ -25,22 +24,17 @@ type composed struct {
 var composedCache = map[string]*composed{}
 
 func presetFor(w *World, store string) (*Term, bool) {
-	var obj types.Object
-	switch store {
-	case "inmemory":
-		obj = w.lookup(pInmem, "inMemoryPersistence")
-	case "sql":
-		obj = w.lookup(pSQL, "sqlLogPersistence")
-	}
-	if obj == nil {
+	t := storeType(w, store)
+	if t == nil {
 		return nil, false
 	}
-	return mk("preset", store, 0, types.NewPointer(obj.Type())), true
+	return mk("preset", store, 0, t), true
 }
 
 // compose explores root (a method of *Witness) with w.lsp bound to the given store; opaque names stay events.
 func compose(w *World, r *Run, rule, root, store string, opaque ...string) (*composed, bool) {
 	key := fmt.Sprintf("%p|%s|%s|%v", w, root, store, opaque)
+	r.Assume("errors produced by database/sql (and plain fmt.Errorf/errors.New errors over them) do not implement GRPCStatus: status.Code of such an error is never NotFound")
 	if c, ok := composedCache[key]; ok {
 		r.Analysed(root+" ∘ "+store, len(c.sums))
 		return c, true
@@ -79,110 +73,37 @@ func compose(w *World, r *Run, rule, root, store string, opaque ...string) (*com
 	return c, true
 }
 
-// casPrimitive finds the unique production function of the in-memory store that writes the checkpoint map.
-func casPrimitive(w *World) *ssa.Function {
-	ck := w.structField(pInmem, "inMemoryPersistence", "checkpoints")
-	var found *ssa.Function
-	for _, fn := range w.prodFns() {
-		if pkgPathOf(fn) != pInmem {
+// C05.d / C12.b on Update ∘ inmemory and GetCheckpoint ∘ inmemory: every access to the checkpoint map is keyed by the
+// request's log ID; the read API returns the value stored under that ID. (The compare-and-set itself: ruleCompareAndSet.)
+func ruleComposedInMemory(w *World, r *Run, rule string) {
+	ruleCompareAndSet(w, r, rule)
+	for _, root := range []string{fnUpdate, fnGetCheckpoint} {
+		c, ok := compose(w, r, rule, root, "inmemory")
+		if !ok {
 			continue
 		}
-		for _, b := range fn.Blocks {
-			for _, in := range b.Instrs {
-				if mu, ok := in.(*ssa.MapUpdate); ok {
-					if mf, base := mapFieldOf(mu.Map); mf == ck && !baseIsLocalAlloc(base) {
-						if found != nil && found != outermost(fn) {
-							return nil
-						}
-						found = outermost(fn)
-					}
-				}
-			}
+		ck := memMapField(c.preset)
+		if ck == nil {
+			r.Undecided(rule, "in-memory store | checkpoint map", "", "the store does not hold exactly one map")
+			return
 		}
-	}
-	return found
-}
-
-// C05.d / C12.b on Update ∘ inmemory: the compare-and-set is asked with (the request's log ID, the snapshot taken when
-// the write operation was opened for that same ID, the bytes given to Set).
-func ruleComposedInMemory(w *World, r *Run, rule string) {
-	cas := casPrimitive(w)
-	if cas == nil {
-		r.Undecided(rule, "in-memory compare-and-set primitive", "", "could not identify the unique function that writes the checkpoint map")
-		return
-	}
-	casName := funcNameOrSSA(cas)
-	c, ok := compose(w, r, rule, fnUpdate, "inmemory", casName)
-	if !ok {
-		return
-	}
-	ck := mk("field", "checkpoints", 0, nil, c.preset)
-	nCas := 0
-	for _, s := range c.sums {
-		// every read of the map is keyed by the request's log ID
-		for _, ev := range s.Events {
-			if ev.Kind == "mapread" && ev.Recv == ck && len(ev.Args) == 1 {
-				r.Check(ev.Args[0] == c.logID, rule, fnUpdate+" ∘ inmemory | map read keyed by the request's log ID", w.pos(ev.Pos), "the in-memory store reads entry "+short(ev.Args[0].String())+" while serving an update for another log ID")
-			}
-		}
-		for _, ce := range calls(s, casName) {
-			nCas++
-			key := fnUpdate + " ∘ inmemory | compare-and-set(log ID of the request, snapshot taken at WriteOps, bytes given to Set)"
-			// arguments by type: string key, pointer snapshot, struct new
-			var keyT, oldT, newT *Term
-			for _, a0 := range ce.Args {
-				if a0 == nil || a0.Typ == nil {
-					if a0 != nil && (a0.Kind == "nil" || a0.Kind == "zero") {
-						oldT = a0
-					}
-					continue
-				}
-				switch a0.Typ.Underlying().(type) {
-				case *types.Basic:
-					keyT = a0
-				case *types.Pointer:
-					oldT = a0
-				case *types.Struct:
-					newT = a0
-				}
-			}
-			good := ce.Recv == c.preset && keyT == c.logID
-			// new state carries exactly the bytes Update handed to Set (the Sign output)
-			if good {
-				good = newT != nil && newT.Kind == "structval" && len(newT.Args) == 1 && newT.Args[0].Args[0].Kind == "call" && newT.Args[0].Args[0].Name == cSign
-			}
-			// expected: nil when the lookup at WriteOps missed, else a private copy of checkpoints[logID] taken then
-			if good {
-				kf, found, _ := boolFact(s, mk("lookup", "ok", 0, nil, ck, c.logID))
-				switch {
-				case !kf:
-					good = false
-				case found:
-					snap := ce.Binds[keyOf(oldT)]
-					good = oldT != nil && oldT.Kind == "alloc" && snap == mk("lookup", "val", 0, nil, ck, c.logID)
-				default:
-					good = oldT == nil || oldT.Kind == "nil" || oldT.Kind == "zero"
-				}
-			}
-			r.Check(good, rule, key, w.pos(ce.Pos), "the compare-and-set is invoked with ("+short(fmt.Sprint(ce.Args))+"): its key must be the request's log ID, its expected value the snapshot read when the write operation was opened for that ID, its new value the bytes given to Set")
-		}
-	}
-	if nCas == 0 {
-		r.Undecided(rule, fnUpdate+" ∘ inmemory", "", "no compare-and-set reached on any composed path")
-	}
-	// read side
-	if g, ok := compose(w, r, rule, fnGetCheckpoint, "inmemory"); ok {
-		ck := mk("field", "checkpoints", 0, nil, g.preset)
-		for _, s := range g.sums {
+		n := 0
+		for _, s := range c.sums {
 			for _, ev := range s.Events {
-				if ev.Kind == "mapread" && ev.Recv == ck && len(ev.Args) == 1 {
-					r.Check(ev.Args[0] == g.logID, rule, fnGetCheckpoint+" ∘ inmemory | map read keyed by the requested log ID", w.pos(ev.Pos), "GetCheckpoint reads entry "+short(ev.Args[0].String()))
+				if (ev.Kind == "mapread" || ev.Kind == "mapupdate") && ev.Recv == ck && len(ev.Args) >= 1 {
+					n++
+					r.Check(ev.Args[0] == c.logID, rule, root+" ∘ inmemory | map access keyed by the request's log ID", w.pos(ev.Pos), "the in-memory store accesses entry "+short(ev.Args[0].String())+" while serving a request for another log ID")
 				}
 			}
-			if len(s.Rets) == 2 && s.Rets[1].Kind == "nil" {
-				good := anySub(s.Rets[0], func(t *Term) bool { return t == mk("lookup", "val", 0, nil, ck, g.logID) })
+			if root == fnGetCheckpoint && len(s.Rets) == 2 && s.Rets[1].Kind == "nil" {
+				good := anySub(s.Rets[0], func(t *Term) bool {
+					return t.Kind == "lookup" && t.Name == "val" && t.Args[0] == ck && t.Args[1] == c.logID
+				})
 				r.Check(good, rule, fnGetCheckpoint+" ∘ inmemory | returns the bytes stored for the requested log ID", w.pos(s.RetPos), "GetCheckpoint returns "+short(s.Rets[0].String()))
 			}
+		}
+		if n == 0 {
+			r.Undecided(rule, root+" ∘ inmemory", "", "no access to the checkpoint map on any composed path")
 		}
 	}
 }
@@ -213,7 +134,7 @@ func ruleComposedSQL(w *World, r *Run, rule string) {
 	if !ok {
 		return
 	}
-	db := mk("field", "db", 0, nil, c.preset)
+	db := fieldByType(c.preset, "*sql.DB")
 	nSucc := 0
 	for _, s := range c.sums {
 		var begin, query, exec, commit, rollback *Event
@@ -295,7 +216,7 @@ func ruleComposedSQL(w *World, r *Run, rule string) {
 	}
 	// read side: GetCheckpoint ∘ sql queries the pool with the requested log ID and never begins a transaction
 	if g, ok := compose(w, r, rule, fnGetCheckpoint, "sql"); ok {
-		dbg := mk("field", "db", 0, nil, g.preset)
+		dbg := fieldByType(g.preset, "*sql.DB")
 		nq := 0
 		for _, s := range g.sums {
 			for _, ev := range s.Events {
